@@ -1265,5 +1265,8 @@ func genServerCases(seed uint64, tier string) []srvCase {
 		add(roVariant(genBlock), 1)
 		add(roVariant(genSecNets), 1)
 	}
+	// server_gen_admit.go (appended last: every older case keeps its index and PRNG stream in both tiers)
+	add(genVeto, 4)
+	add(genClosest, 6)
 	return cases
 }
